@@ -351,6 +351,81 @@ macro_rules! de_width {
     }};
 }
 
+/// a byte buffer following the `serde_bytes` protocol: asks for `deserialize_byte_buf` / `deserialize_bytes` and takes
+/// whatever the format offers (a buffer, or a sequence of checked u8)
+#[derive(Debug, PartialEq)]
+struct ByteBuf(Vec<u8>);
+struct ByteBufVisitor;
+impl<'de> serde::de::Visitor<'de> for ByteBufVisitor {
+    type Value = ByteBuf;
+    fn expecting(&self, f: &mut std::fmt::Formatter<'_>) -> std::fmt::Result {
+        f.write_str("bytes")
+    }
+    fn visit_bytes<E: serde::de::Error>(self, v: &[u8]) -> Result<ByteBuf, E> {
+        Ok(ByteBuf(v.to_vec()))
+    }
+    fn visit_byte_buf<E: serde::de::Error>(self, v: Vec<u8>) -> Result<ByteBuf, E> {
+        Ok(ByteBuf(v))
+    }
+    fn visit_str<E: serde::de::Error>(self, v: &str) -> Result<ByteBuf, E> {
+        Ok(ByteBuf(v.as_bytes().to_vec()))
+    }
+    fn visit_seq<A: serde::de::SeqAccess<'de>>(self, mut seq: A) -> Result<ByteBuf, A::Error> {
+        let mut out = Vec::new();
+        while let Some(b) = seq.next_element::<u8>()? {
+            out.push(b);
+        }
+        Ok(ByteBuf(out))
+    }
+}
+impl<'de> Deserialize<'de> for ByteBuf {
+    fn deserialize<D: serde::Deserializer<'de>>(d: D) -> Result<Self, D::Error> {
+        d.deserialize_byte_buf(ByteBufVisitor)
+    }
+}
+#[derive(Debug, PartialEq)]
+struct Bytes2(Vec<u8>);
+impl<'de> Deserialize<'de> for Bytes2 {
+    fn deserialize<D: serde::Deserializer<'de>>(d: D) -> Result<Self, D::Error> {
+        d.deserialize_bytes(ByteBufVisitor).map(|b| Bytes2(b.0))
+    }
+}
+
+fn byte_targets(acc: &mut Acc) {
+    let ints = i64_lattice();
+    for i in ints.iter().copied().chain(-2..=300) {
+        for (frame, pre) in [("v = [{}]\n", 0usize), ("v = [7, {}]\n", 1), ("v = [{}, 255, 0]\n", 0)] {
+            acc.evals += 1;
+            let text = frame.replace("{}", &i.to_string());
+            let label = format!("deserialize {:?} into a byte buffer", text);
+            acc.nontrivial(label.as_bytes());
+            let fits = u8::try_from(i).ok();
+            let want: Option<Vec<u8>> = fits.map(|b| match (pre, frame.contains("255")) {
+                (1, _) => vec![7, b],
+                (_, true) => vec![b, 255, 0],
+                _ => vec![b],
+            });
+            let mut got: Vec<(&str, Result<Vec<u8>, String>)> = Vec::new();
+            got.push(("toml::from_str (byte_buf)", toml::from_str::<S<ByteBuf>>(&text).map(|s| s.v.0).map_err(|e| e.to_string())));
+            got.push(("toml_edit::de::from_str (byte_buf)", toml_edit::de::from_str::<S<ByteBuf>>(&text).map(|s| s.v.0).map_err(|e| e.to_string())));
+            got.push(("toml::Value::try_into (byte_buf)", toml::from_str::<toml::Value>(&text).unwrap().try_into::<S<ByteBuf>>().map(|s| s.v.0).map_err(|e| e.to_string())));
+            got.push(("toml::from_str (bytes)", toml::from_str::<S<Bytes2>>(&text).map(|s| s.v.0).map_err(|e| e.to_string())));
+            got.push(("toml_edit::de::from_str (bytes)", toml_edit::de::from_str::<S<Bytes2>>(&text).map(|s| s.v.0).map_err(|e| e.to_string())));
+            got.push(("toml::Value::try_into (bytes)", toml::from_str::<toml::Value>(&text).unwrap().try_into::<S<Bytes2>>().map(|s| s.v.0).map_err(|e| e.to_string())));
+            got.push(("toml::from_str (CString)", toml::from_str::<S<std::ffi::CString>>(&text).map(|s| s.v.into_bytes()).map_err(|e| e.to_string())));
+            for (name, g) in got {
+                match (&want, g) {
+                    (Some(w), Ok(g)) if *w == g => {}
+                    // a NUL inside a CString is that type's own refusal
+                    (Some(w), Err(_)) if name.contains("CString") && w.contains(&0) => {}
+                    (None, Err(_)) => {}
+                    (w, g) => acc.viol("U-width", label.clone(), None, format!("{}: expected {:?}, got {:?}", name, w, g)),
+                }
+            }
+        }
+    }
+}
+
 fn widths(rep: &mut Report) {
     let t0 = std::time::Instant::now();
     let mut acc = Acc::default();
@@ -379,8 +454,9 @@ fn widths(rep: &mut Report) {
     de_width!(u128, ints, acc);
     de_width!(isize, ints, acc);
     de_width!(usize, ints, acc);
+    byte_targets(&mut acc);
     let n = acc.evals;
-    rep.absorb("U-width", "12 integer widths x boundary values on output (3 routes) and x the i64 lattice on input (3 routes)", n, true, t0, acc);
+    rep.absorb("U-width", "12 integer widths x boundary values on output (3 routes) and x the i64 lattice on input (3 routes); byte-buffer targets (deserialize_bytes / byte_buf protocol, CString) x arrays holding each lattice integer and -2..300", n, true, t0, acc);
 }
 
 pub fn c11(tier: Tier) -> i32 {
